@@ -268,6 +268,8 @@ def nodes_equal(a, b):
 
 
 def node_scalars(bp, out):
+    if bp[0] == "dup":
+        return out
     if bp[0] == "s":
         out.append((bp[2], bp[3]))
     elif bp[0] == "q":
@@ -284,9 +286,21 @@ def eval_nodes(case):
     import yaml
     bps, opts = case
     n = len(bps)
-    docs = [build_node(bp) for bp in bps]
+
+    def build_docs(items):
+        # ("dup", k): the very same node object as an earlier document (a caller may serialize one node graph twice)
+        out = []
+        for bp in items:
+            if bp[0] == "dup":
+                out.append(out[bp[1] % len(out)] if out else build_node(("s", None, "first", None)))
+            else:
+                out.append(build_node(bp))
+        return out
+    docs = build_docs(bps)
     cl = set()
     cl.add("nodes:n=%d" % n if n < 3 else "nodes:n>=3")
+    if any(bp[0] == "dup" for bp in bps[1:]):
+        cl.add("node-root:same-node-object-in-two-documents")
     for bp in bps:
         if bp[0] == "s":
             if bp[2] == "":
@@ -305,7 +319,7 @@ def eval_nodes(case):
     evals = 0
     for dname, D in dumpers(safe=False):
         def produce(k, D=D):
-            return decode(yaml.serialize_all([build_node(bp) for bp in bps[:k]], Dumper=D, **opts), opts)
+            return decode(yaml.serialize_all(build_docs(bps[:k]), Dumper=D, **opts), opts)
         try:
             text = yaml.serialize_all(docs, Dumper=D, **opts)
         except RecursionError:
@@ -358,7 +372,8 @@ def node_cases():
         "version": st.sampled_from([None, (1, 1), (1, 2)]),
         "tags": gv.tag_maps(allow_redefine=True, allow_nonascii=False),
     }))
-    return st.tuples(st.lists(node_blueprints(), min_size=0, max_size=5), opts)
+    doc = st.one_of(node_blueprints(), node_blueprints(), node_blueprints(), st.integers(0, 4).map(lambda k: ("dup", k)))
+    return st.tuples(st.lists(doc, min_size=0, max_size=5), opts)
 
 
 # ------------------------------------------------------------------------------------------------
@@ -451,7 +466,7 @@ def arms(tier):
 
 
 REQUIRED_CLASSES = ["root:empty-string", "root:trailing-break(keep-chomp)", "node-root:empty-scalar-with-core-tag",
-                    "node-root:empty-collection", "event-root:empty-scalar", "directives"]
+                    "node-root:empty-collection", "event-root:empty-scalar", "directives", "node-root:same-node-object-in-two-documents"]
 
 
 # ------------------------------------------------------------------------------------------------
